@@ -23,9 +23,10 @@ MOD = "vf.props.c18"
 class FakeFrame:
     """minimal DataFrame model for the frame branch (columns, corr, iloc, copy, /)"""
 
-    def __init__(self, values, columns):
-        self.values_, self.columns = values, list(columns)
-        self.index = list(columns)
+    def __init__(self, values, columns=None, index=None, **kw):
+        self.values_ = values if isinstance(values, numpy.ndarray) else numpy.asarray(values, dtype=object).view(sx.SArr)
+        self.columns = list(columns if columns is not None else range(self.values_.shape[1]))
+        self.index = list(index) if index is not None else list(self.columns)
 
     @property
     def shape(self):
@@ -103,6 +104,15 @@ class Learner(BaseEstimator):
 class _NP:
     def __getattr__(self, k):
         return getattr(numpy, k)
+
+    def zeros(self, shape, dtype=None, **kw):
+        return sx.typed_empty(shape, dtype, fill=0)
+
+    def empty(self, shape, dtype=None, **kw):
+        return sx.typed_empty(shape, dtype)
+
+    def full(self, shape, fill_value, dtype=None, **kw):
+        return sx.typed_empty(shape, dtype, fill=fill_value)
 
     def corrcoef(self, df, rowvar=True):
         k = df.shape[1]
